@@ -238,8 +238,35 @@ def insert_lemma_canary(path, lemma):
     return out
 
 
-def verify_unit(root, unit, workdir, rlimit, seed, canary=None, threads=8, flags_off=False, lemma_canary=None):
+def apply_f64_iso(root, path):
+    """C19 differential: the same unit with the 'T is isomorphic to f64' axioms of preamble/f64iso.rs in force"""
+    txt = open(path).read()
+    iso = open(os.path.join(root, "contracts/preamble/f64iso.rs")).read()
+    i = txt.find("} // mod pre")
+    m = re.search(r"^broadcast use (\{[^}]*\}|[A-Za-z_0-9]+);", txt[i:], re.M)
+    if i < 0 or not m:
+        raise Undecided("f64-iso differential: unit layout not recognised")
+    inner = m.group(1).strip("{} ")
+    use = "broadcast use {%s, f64_iso_axioms};" % inner
+    txt2 = txt[:i] + iso + "\n" + txt[i:i + m.start()] + use + txt[i + m.end():]
+    out = path[:-3] + "_iso.rs"
+    open(out, "w").write(txt2)
+    # the source map is keyed by line: lines inside `mod unit` shift by the inserted text
+    return out, iso.count("\n") + 1
+
+
+def verify_unit(root, unit, workdir, rlimit, seed, canary=None, threads=8, flags_off=False, lemma_canary=None, f64_iso=False):
     path, mapf = extract_unit(root, unit, workdir, canary=canary, flags_off=flags_off)
+    if f64_iso:
+        path, shift = apply_f64_iso(root, path)
+        m = json.load(open(mapf))
+        for it in m.get("items", []):
+            if it.get("unit_lines"):
+                it["unit_lines"] = [it["unit_lines"][0] + shift, it["unit_lines"][1] + shift]
+            if it.get("body_first_unit_line") is not None:
+                it["body_first_unit_line"] += shift
+        mapf = mapf[:-9] + "_iso.map.json" if mapf.endswith(".map.json") else mapf + ".iso"
+        json.dump(m, open(mapf, "w"))
     if lemma_canary:
         path = insert_lemma_canary(path, lemma_canary)
         canary = "lemma:" + lemma_canary
@@ -673,6 +700,42 @@ def check_property(root, pid, tier, seed):
                         entry["flag_dependent"] += 1
         diff_report.append(entry)
 
+    # C19 differential: an obligation that fails for an abstract scalar but is discharged once `from_f64` / `to_f64` are assumed to be
+    # mutually inverse and to commute with every trait operation (i.e. "if T were f64") is code that is right for f64 only: it takes a
+    # shortcut through f64 arithmetic or f64 constants, which is what C19 forbids
+    iso_report = []
+    for du in P.get("differential_f64_iso", []):
+        try:
+            rn = verify_unit(root, du["unit"], os.path.join(work, "iso"), rlimit, seed)
+        except Undecided as e:
+            undecided.append("f64-iso differential, unit %s: %s" % (du["unit"], e))
+            continue
+        if rn["status"] == "undecided":
+            undecided.append("f64-iso differential, unit %s: %s" % (du["unit"], rn["reason"]))
+            continue
+        fails = [f for f in rn["failures"] if f.get("function") is not None] if rn["status"] == "fail" else []
+        entry = {"unit": du["unit"], "failed_for_an_abstract_scalar": len(fails), "discharged_if_T_were_f64": 0}
+        if fails:
+            try:
+                ro = verify_unit(root, du["unit"], os.path.join(work, "iso"), rlimit, seed, f64_iso=True)
+            except Undecided as e:
+                undecided.append("f64-iso differential (axioms on), unit %s: %s" % (du["unit"], e))
+                ro = None
+            if ro is not None and ro["status"] == "undecided":
+                undecided.append("f64-iso differential (axioms on), unit %s: %s" % (du["unit"], ro["reason"]))
+            elif ro is not None:
+                key = lambda f: (f.get("function"), f.get("message"), f.get("unit_text"))
+                on = set(key(f) for f in ro["failures"]) if ro["status"] == "fail" else set()
+                for f in fails:
+                    if key(f) not in on and "narrowing_allowed" not in f.get("unit_text", ""):
+                        f = dict(f)
+                        f["unit"] = du["unit"]
+                        f["message"] = "right for T = f64 only (a shortcut through f64 arithmetic / constants): this obligation fails for an abstract scalar and is discharged once from_f64/to_f64 are assumed to be an isomorphism — " + f["message"]
+                        violations.append(f)
+                        total_err += 1
+                        entry["discharged_if_T_were_f64"] += 1
+        iso_report.append(entry)
+
     # Kani stand-ins
     kani_report = []
     if P.get("kani"):
@@ -734,6 +797,7 @@ def check_property(root, pid, tier, seed):
             "unstable_obligations_discharged_under_another_seed": unstable_obl,
             "kani": kani_report,
             "debug_flag_differential": diff_report,
+            "f64_isomorphism_differential": iso_report,
             "repo_state_scan": scan,
             "assumption_lines": {k: len(v) for k, v in assumptions_found.items()},
             "not_decided": P.get("not_decided", []),
